@@ -71,7 +71,8 @@ def run_fault(case, chooser):
         import aioftp as _a
 
         def _bare(*args):
-            return _a.PathIOError("backend says no")        # no reason triple, as a third-party backend may do
+            # aioftp.PathIOError() raised by the plug-in itself: no reason triple, as a third-party backend may do
+            return backends.Bare("backend says no")
 
         spy.fail_exc = {"OSError": OSError, "TimeoutError": TimeoutError, "ValueError": ValueError,
                         "KeyError": KeyError, "RuntimeError": RuntimeError, "PathIOError": _bare,
